@@ -65,6 +65,8 @@ pub struct VideoState {
   object_line_cache: [u8; 176],
   current_obj_line_cache_pixel: usize,
   current_window_line: Option<usize>,
+  /// Number of frames completed so far (incremented on entry to VBLANK)
+  frames_completed: u64,
 }
 
 impl VideoState {
@@ -103,11 +105,16 @@ impl VideoState {
       object_line_cache: [0; 176],
       current_obj_line_cache_pixel: 0,
       current_window_line: None,
+      frames_completed: 0,
     }
   }
 
   pub fn get_current_mode(&self) -> u8 {
     self.current_mode
+  }
+
+  pub fn get_frames_completed(&self) -> u64 {
+    self.frames_completed
   }
 
   pub fn set_lcd_control(&mut self, value: u8) {
@@ -475,6 +482,7 @@ impl VideoState {
               self.current_line = 144;
               self.current_mode = 1;
               self.lcd.swap_buffers();
+              self.frames_completed += 1;
               interrupt_state |= self.check_mode_interrupt();
               interrupt_state |= self.check_current_line();
               interrupt_state |= InterruptFlag::vblank();
